@@ -1,11 +1,11 @@
 use rusty_common::*;
 use rusty_parser::{
-    ConditionalBlock, DoLoop, DoLoopConditionKind, DoLoopConditionPosition, Expression,
-    ExpressionPos, ForLoop, HasExpressionType, Statements,
+    BareName, ConditionalBlock, DoLoop, DoLoopConditionKind, DoLoopConditionPosition, Expression,
+    ExpressionPos, ExpressionType, ForLoop, HasExpressionType, Name, Statements, TypeQualifier,
 };
 use rusty_variant::Variant;
 
-use super::{Instruction, InstructionGenerator, Visitor};
+use super::{Instruction, InstructionGenerator, RootPath, Visitor};
 use crate::RuntimeError;
 
 impl InstructionGenerator {
@@ -27,6 +27,39 @@ impl InstructionGenerator {
         self.generate_expression_instructions(counter_var.clone().at_pos(pos));
     }
 
+    /// The limit and the step of a FOR loop live in hidden variables of the current
+    /// memory block, one pair per FOR statement. They cannot live in registers,
+    /// because a register frame per loop body is left behind when the body is left
+    /// with GOTO, and the enclosing loop would then read the limit and the step of the
+    /// inner loop. The names cannot be written in a program, so they cannot clash.
+    fn for_loop_hidden_variable(kind: &str, pos: Position, q: TypeQualifier) -> RootPath {
+        RootPath {
+            name: Name::new(
+                BareName::new(format!("for-{}-{}-{}", kind, pos.row(), pos.col())),
+                Some(q),
+            ),
+            shared: false,
+        }
+    }
+
+    fn store_hidden(&mut self, hidden: &RootPath, pos: Position) {
+        self.push(Instruction::VarPathName(hidden.clone()), pos);
+        self.push(Instruction::CopyAToVarPath, pos);
+    }
+
+    fn load_hidden(&mut self, hidden: &RootPath, pos: Position) {
+        self.push(Instruction::VarPathName(hidden.clone()), pos);
+        self.push(Instruction::CopyVarPathToA, pos);
+        self.push(Instruction::PopVarPath, pos);
+    }
+
+    fn numeric_qualifier(expression_type: &ExpressionType) -> TypeQualifier {
+        match expression_type {
+            ExpressionType::BuiltIn(q) => *q,
+            _ => TypeQualifier::BangSingle,
+        }
+    }
+
     pub fn generate_for_loop_instructions(&mut self, f: ForLoop, pos: Position) {
         let ForLoop {
             variable_name:
@@ -40,35 +73,34 @@ impl InstructionGenerator {
             statements,
             ..
         } = f;
-        // lower bound to A
-        self.generate_expression_instructions_casting(
-            lower_bound,
-            counter_var_name.expression_type(),
+        let counter_type = counter_var_name.expression_type();
+        let limit = Self::for_loop_hidden_variable(
+            "limit",
+            pos,
+            Self::numeric_qualifier(&counter_type),
         );
+        // lower bound to A
+        self.generate_expression_instructions_casting(lower_bound, counter_type.clone());
         // A to variable
         self.store_counter(&counter_var_name, pos);
         // upper bound to A
-        self.generate_expression_instructions_casting(
-            upper_bound,
-            counter_var_name.expression_type(),
-        );
+        self.generate_expression_instructions_casting(upper_bound, counter_type);
+        self.store_hidden(&limit, pos);
         match step {
             Some(s) => {
                 let step_pos = s.pos();
-                // keep the upper bound on the value stack while the step is evaluated,
-                // because evaluating an expression may use the registers
-                self.push(Instruction::PushAToValueStack, pos);
+                let step_var = Self::for_loop_hidden_variable(
+                    "step",
+                    pos,
+                    Self::numeric_qualifier(&s.expression_type()),
+                );
                 // load step to A
                 self.generate_expression_instructions(s);
-                // A to D (step is in D)
-                self.push(Instruction::CopyAToD, pos);
-                // upper bound to C
-                self.push(Instruction::PopValueStackIntoA, pos);
-                self.push(Instruction::CopyAToC, pos);
+                self.store_hidden(&step_var, pos);
                 // is step = 0 ?
                 self.push_load(Variant::VInteger(0), pos);
                 self.push(Instruction::CopyAToB, pos);
-                self.push(Instruction::CopyDToA, pos);
+                self.load_hidden(&step_var, pos);
                 self.push(Instruction::Equal, pos);
                 self.jump_if_false("for-loop", pos);
                 self.push(Instruction::Throw(RuntimeError::ForLoopZeroStep), step_pos);
@@ -77,43 +109,51 @@ impl InstructionGenerator {
                 self.label("for-loop", pos);
                 self.push_load(Variant::VInteger(0), pos);
                 self.push(Instruction::CopyAToB, pos);
-                self.push(Instruction::CopyDToA, pos);
+                self.load_hidden(&step_var, pos);
                 // is step < 0 ?
                 self.push(Instruction::Less, pos);
                 self.jump_if_false("for-positive-step", pos);
                 // negative step: counter >= upper bound
-                self.push(Instruction::CopyCToB, pos);
+                self.load_hidden(&limit, pos);
+                self.push(Instruction::CopyAToB, pos);
                 self.load_counter(&counter_var_name, pos);
                 self.push(Instruction::GreaterOrEqual, pos);
                 self.jump_if_false("out-of-for", pos);
                 self.jump("for-body", pos);
                 // positive step: counter <= upper bound
                 self.label("for-positive-step", pos);
-                self.push(Instruction::CopyCToB, pos);
+                self.load_hidden(&limit, pos);
+                self.push(Instruction::CopyAToB, pos);
                 self.load_counter(&counter_var_name, pos);
                 self.push(Instruction::LessOrEqual, pos);
                 self.jump_if_false("out-of-for", pos);
                 self.label("for-body", pos);
-                self.generate_for_loop_body_and_increment(&counter_var_name, statements, pos);
+                self.generate_for_loop_body_and_increment(
+                    &counter_var_name,
+                    statements,
+                    Some(&step_var),
+                    pos,
+                );
                 // back to loop
                 self.jump("for-loop", pos);
                 self.label("out-of-for", pos);
             }
             None => {
-                // A to C (upper bound to C)
-                self.push(Instruction::CopyAToC, pos);
-                self.push_load(Variant::VInteger(1), pos);
-                // A to D (step is in D)
-                self.push(Instruction::CopyAToD, pos);
                 // loop point
                 self.label("positive-loop", pos);
-                // upper bound from C to B
-                self.push(Instruction::CopyCToB, pos);
+                // upper bound to B
+                self.load_hidden(&limit, pos);
+                self.push(Instruction::CopyAToB, pos);
                 // counter to A
                 self.load_counter(&counter_var_name, pos);
                 self.push(Instruction::LessOrEqual, pos);
                 self.jump_if_false("out-of-for", pos);
-                self.generate_for_loop_body_and_increment(&counter_var_name, statements, pos);
+                self.generate_for_loop_body_and_increment(
+                    &counter_var_name,
+                    statements,
+                    None,
+                    pos,
+                );
                 // back to loop
                 self.jump("positive-loop", pos);
                 self.label("out-of-for", pos);
@@ -125,22 +165,23 @@ impl InstructionGenerator {
         &mut self,
         counter_var_name: &Expression,
         statements: Statements,
+        step: Option<&RootPath>,
         pos: Position,
     ) {
-        // push registers
-        self.push(Instruction::PushRegisters, pos);
-
         // run loop body
         self.visit(statements);
 
-        // to be able to resume after an error at the last statement and then pop registers
+        // to be able to resume after an error at the last statement
         self.mark_statement_address();
-        self.push(Instruction::PopRegisters, pos);
 
+        // step to B
+        match step {
+            Some(step) => self.load_hidden(step, pos),
+            None => self.push_load(Variant::VInteger(1), pos),
+        }
+        self.push(Instruction::CopyAToB, pos);
         // increment step
         self.load_counter(counter_var_name, pos);
-        // copy step from D to B
-        self.push(Instruction::CopyDToB, pos);
         self.push(Instruction::Plus, pos);
         self.store_counter(counter_var_name, pos);
     }
